@@ -209,3 +209,25 @@ Definition zpair_le_spec (l r : Z * Z) : bool := zpair_lt_spec l r || zpair_eq_s
 Definition zpair_gt_spec (l r : Z * Z) : bool := zpair_lt_spec r l.
 Definition zpair_ge_spec (l r : Z * Z) : bool := zpair_lt_spec r l || zpair_eq_spec l r.
 Definition zlist_eq_spec (l r : list Z) : bool := if list_eq_dec Z.eq_dec l r then true else false.
+
+(* ================================================================================================ *)
+(** * [pairs.pair] / [tuple.cnstr] constraints over the element facts *)
+Definition pair_traits_spec (a b : elem) : list bool :=
+  let x := elem_traits a in let y := elem_traits b in
+  [ (* default constructor: Constraints is_default_constructible_v<T1> && is_default_constructible_v<T2> *)
+    e_dc x && e_dc y;
+    (* pair(const pair&) = default *)
+    e_cc x && e_cc y;
+    (* pair(pair&&) = default; movable also through the copy constructor *)
+    (e_mv x && e_mv y) || (e_cc x && e_cc y);
+    (* operator=(const pair&): deleted unless is_copy_assignable_v<T1> && is_copy_assignable_v<T2> *)
+    e_ca x && e_ca y;
+    (* operator=(pair&&): Constraints is_move_assignable_v<T1> && is_move_assignable_v<T2>; an rvalue is
+       otherwise assigned through operator=(const pair&) *)
+    (e_ma x && e_ma y) || (e_ca x && e_ca y) ].
+Definition tuple_traits_spec (es : list elem) : list bool :=
+  [ forallb (fun e => e_dc (elem_traits e)) es; forallb (fun e => e_cc (elem_traits e)) es ].
+
+Definition refwrap_ops_spec (a b : Z) : Z * Z * Z := (a + b + 1, a + 1, b).
+Definition fref_ops_spec (v : Z) : list Z := [v + 1; v + 20; v + 20; v + 20; v + 20; v + 1].
+Definition notfn_static_spec (v : Z) : bool := 0 <=? v.
